@@ -161,7 +161,7 @@ func init() {
 			"the loop variable enters the static scope after the range operands are parsed (R-DECLCHECK); a declaration binds in the current run-time scope, look-ups and assignments take the innermost scope that has the name (R-SCOPECHAIN).",
 		NotDecided:  "The arithmetic of numeric ranges and which elements are visited; the parser's static scope tracking (see C05).",
 		Assumptions: []string{},
-		Rules:       []*Rule{ruleScopePairEval, ruleSignal, ruleFresh, ruleScopePairParser, ruleNaNGuard, f2iRule("pkg/evaluator", 4), ruleDeclCheck, ruleScopeChain},
+		Rules:       []*Rule{ruleScopePairEval, ruleSignal, ruleFresh, ruleScopePairParser, ruleNaNGuard, f2iRule("pkg/evaluator", 4), ruleDeclCheck, ruleScopeChain, ruleLoopVarInit},
 	})
 }
 
@@ -172,10 +172,10 @@ func init() {
 			"end-of-line assertion or a recorded error (R-EOLSTATE, path-sensitive typestate over every parser function with verified callee " +
 			"contracts); evaluation is gated on an error-free parse in the library entry point and in `evy run`, which reports on stderr with " +
 			"status 1 and writes no SVG for a rejected program (R-PARSEGATE); a list of parsed expressions is handed on whole or an error is recorded, so extra " +
-			"operands are never accepted and dropped (R-LISTUSE); an empty literal never makes operands of different kinds match (R-TYPEREL); a declaration enters the scope only on the edge where the validator accepted it, and the validator tests built-in globals, the current scope and function names unconditionally (R-DECLCHECK).",
+			"operands are never accepted and dropped (R-LISTUSE); an empty literal never makes operands of different kinds match (R-TYPEREL); a declaration enters the scope only on the edge where the validator accepted it, and the validator tests built-in globals, the current scope and function names unconditionally (R-DECLCHECK); the termination analysis behind `missing return` and `unreachable code` (R-TERMCONJ); every block's variables are checked for use however the block ends, and a parsed statement is kept or diagnosed (R-BLOCKKEEP).",
 		NotDecided:  "That each static check's predicate is right for every program (scope, type and termination predicates are value-level).",
 		Assumptions: []string{"advancePastNL is the only routine that discards more than one token"},
-		Rules:       []*Rule{ruleEOLState, ruleParseGate, ruleTermConj, ruleScopePairParser, ruleListUse, ruleTypeRel, ruleBlindAdv, ruleDeclCheck},
+		Rules:       []*Rule{ruleEOLState, ruleParseGate, ruleTermConj, ruleScopePairParser, ruleListUse, ruleTypeRel, ruleBlindAdv, ruleDeclCheck, ruleBlockKeep},
 	})
 }
 
@@ -211,10 +211,10 @@ func init() {
 			"has a case for every node kind, so it never prints its placeholder (R-EXHAUST/format), and reads every source-bearing field of every " +
 			"node type (R-FIELDCOV/format); every array/map literal node is registered in the layout table on every path that returns it (R-LAYOUTKEY); " +
 			"the text of a string literal reaches the output only through strconv.Quote (R-INDENTPAIR); parsed operand lists are never partly dropped (R-LISTUSE); " +
-			"the parser never steps over a token it has not examined (R-BLINDADV); a binary expression parsed where white space separates elements is recorded and printed without spaces (R-WSSKEEP).",
+			"the parser never steps over a token it has not examined (R-BLINDADV); a binary expression parsed where white space separates elements is recorded and printed without spaces (R-WSSKEEP); a statement that was parsed is kept in the tree or diagnosed (R-BLOCKKEEP).",
 		NotDecided:  "Token-sequence equality, re-parse equality, comment placement inside multi-line literals, expression re-binding — these need the output text.",
 		Assumptions: []string{},
-		Rules:       []*Rule{ruleEOLState, exhaustRule("format", 25), fieldCovRule("format"), ruleLayoutKey, ruleNoInPlace, ruleIndentPair, ruleListUse, ruleBlindAdv, ruleWSSKeep},
+		Rules:       []*Rule{ruleEOLState, exhaustRule("format", 25), fieldCovRule("format"), ruleLayoutKey, ruleNoInPlace, ruleIndentPair, ruleListUse, ruleBlindAdv, ruleWSSKeep, ruleBlockKeep},
 	})
 }
 
@@ -242,10 +242,10 @@ func init() {
 			"of an any are comma-ok (R-BUILTINSIG); user numbers reach integer conversions and allocation sizes only through NaN/Inf/fraction-safe " +
 			"guards (R-F2I with its allocation clause, evaluator); eval has a case for every node kind the parser defines and fails with an error " +
 			"otherwise (R-EXHAUST/eval) and consumes every child field of every node type (R-FIELDCOV/eval); accepted values enter any-typed slots only through wrapAny (R-ACCEPTWRAP); non-literal expressions never " +
-			"carry a convertible type into wrapAny (R-FIXED); scopes are paired so a variable's run-time value has its static type (R-SCOPEPAIR/evaluator); every variable enters a static scope through the declaration validator, which never lets a name shadow a built-in global, a function or a variable of the same scope (R-DECLCHECK); containers built by the evaluator own their storage, so no operation on one value corrupts the representation of another (R-FRESH).",
+			"carry a convertible type into wrapAny (R-FIXED); scopes are paired so a variable's run-time value has its static type (R-SCOPEPAIR/evaluator); every variable enters a static scope through the declaration validator, which never lets a name shadow a built-in global, a function or a variable of the same scope (R-DECLCHECK); containers built by the evaluator own their storage, so no operation on one value corrupts the representation of another (R-FRESH); the loop variable is created after the range operands were evaluated (R-LOOPVARINIT); the index normalisers return positions within bounds, so no accepted index reaches a Go slice out of range (R-IDXPOST).",
 		NotDecided:  "That the parser's typing of operands matches the evaluator's assertions in evalBinaryExpr/normalizeIndex beyond the operator matrix, panics inside the Go standard library for exotic values, memory exhaustion.",
 		Assumptions: []string{"element assertions inside array arguments (poly) are not checked"},
-		Rules:       []*Rule{ruleBuiltinSig, f2iRule("pkg/evaluator", 4), exhaustRule("eval", 25), fieldCovRule("eval"), ruleAcceptWrap, ruleFixed, ruleScopePairEval, ruleMapEq, ruleTermConj, ruleEvalMisc, ruleAssignTarget, ruleDeclCheck, ruleFresh},
+		Rules:       []*Rule{ruleBuiltinSig, f2iRule("pkg/evaluator", 4), exhaustRule("eval", 25), fieldCovRule("eval"), ruleAcceptWrap, ruleFixed, ruleScopePairEval, ruleMapEq, ruleTermConj, ruleEvalMisc, ruleAssignTarget, ruleDeclCheck, ruleFresh, ruleLoopVarInit, idxPostRule("pkg/evaluator")},
 	})
 	Register(&Property{
 		ID: "C13",
